@@ -164,6 +164,7 @@ pub fn run(ctx: &mut Ctx) {
         "u16full" => run_u16_full(ctx),
         "f32" => run_f32(ctx),
         "unsupported" => run_unsupported(ctx),
+        "small" => run_small(ctx),
         s => panic!("unknown sub {}", s),
     }
 }
@@ -345,5 +346,34 @@ fn run_unsupported(ctx: &mut Ctx) {
                 viols.push(Viol::new("unsupported_type_not_rejected", format!("is_supported({}) is true", pt_name(pt))));
             }
         },
+    );
+}
+
+/// short random rows through every entry point and back-end: cheap enough for Miri
+fn run_small(ctx: &mut Ctx) {
+    let total = ctx.n;
+    let seed = ctx.seed;
+    ctx.drive(
+        total,
+        |_, idx| Some((ALPHA_PT[(idx % 6) as usize], (idx / 6) % 2 == 1, idx)),
+        |c| json!({"pixel_type": pt_name(c.0), "op": if c.1 {"divide"} else {"multiply"}, "row": c.2}),
+        |&(pt, divide, k), stats, viols| with_alpha_px!(pt, P => {
+            stats.nontrivial(&json!([pt_name(pt), divide, k]));
+            let mut rng = Rng::for_case(seed, "C06small", k);
+            let nc = P::NC;
+            let w = 1 + rng.below(19) as usize;
+            let h = 1 + rng.below(2) as usize;
+            let mut src = vec![P::default(); w * h];
+            {
+                let comps = P::components_mut(&mut src);
+                for i in 0..w * h * nc {
+                    comps[i] = match P::kind() {
+                        CompKind::F32 => <<P as Px>::C as Comp>::from_f64(if rng.chance(1, 6) { 0.0 } else { rng.unit() }),
+                        _ => <<P as Px>::C as Comp>::from_bits(if rng.chance(1, 6) { 0 } else { rng.next() }),
+                    };
+                }
+            }
+            check_all::<P>(&src, w as u32, h as u32, divide, "short row", stats, viols, &ALL_EXT, &ENTRIES);
+        }),
     );
 }
